@@ -104,8 +104,20 @@ def s2_who_may_trade(ctx):
             ctx.require(fn.qn in allowed, 'C14.S2', '%s is invoked only from %s (%s)' % (callee, sorted(allowed, key=lambda q: (q.rsplit('.', 1)[-1].startswith('_') and not q.endswith('__'), q))[0], fn.qn),
                         fn.site(n), key='C14.S2|caller|%s|%s' % (callee, fn.qn))
     # nothing else reaches the broker's mutating API during a run
-    for name, allowed in (('subscribe_funds_to_portfolio', {'BacktestTradingSession._create_broker'}), ('withdraw_funds_from_portfolio', set()),
-                          ('create_portfolio', {'BacktestTradingSession._create_broker'})):
+    # "while the session is set up": the constructor of the session and the private steps (methods or module-level helpers) only it uses
+    setup = private_closure(M, {'BacktestTradingSession.__init__'}, same_class=False)
+    grown = True
+    while grown:
+        grown = False
+        for g_ in M.funcs.values():
+            # a module-level helper of the session module that the package calls from the set-up steps only (whatever its name)
+            if g_.qn not in setup and g_.cls is None and g_.path == ctx.fn(RUN).path:
+                ss = [c_ for c_, n_ in M.call_sites(g_.qn)]
+                if ss and all(c_.qn in setup for c_ in ss):
+                    setup.add(g_.qn)
+                    grown = True
+    for name, allowed in (('subscribe_funds_to_portfolio', setup), ('withdraw_funds_from_portfolio', set()),
+                          ('create_portfolio', setup)):
         for fn, n in calls_named(M, name):
             ctx.require(fn.qn in allowed, 'C14.S2', '%s is called only while the session is set up (%s)' % (name, fn.qn), fn.site(n), key='C14.S2|setup|%s|%s' % (name, fn.qn))
     # QTS: the orders executed are the ones the construction model returned
